@@ -297,8 +297,87 @@ def part_reader(sh, res):
                 res.feat('reader_warning_cases')
 
 
+def part_js(sh, res):
+    """the JS twin: record numbers of runtime errors (language-neutral poisons), reader warnings with their numbers, error types"""
+    from vf import js
+    from vf.checks import c12
+    if not js.available():
+        res.feat('js_skipped')
+        return
+    Bp = [['5', 'p'], ['6', 'q']]
+    cases = []
+    for kind, q in poison_queries():
+        if kind in ('short', 'strict', 'nonconst'):
+            for A, mask in poison_tables(kind, sh['maxn']):
+                cases.append((q, A, (Bp if q.get('join') else None), None, None))
+    qcheck.run_js_cases(res, cases, lambda *a: 'error-record-number')
+    # reader warnings: width patterns with comment lines and multi-line records, bulk and stream
+    batch, meta = [], []
+    for n in range(1, 4):
+        for ws in itertools.product(range(1, 4), repeat=n):
+            A = [['v'] * w for w in ws]
+            variants = [(refcsv.ref_write(A, ',', 'simple'), 'simple', None), ('#c\n' + ''.join(refcsv.ref_write([r], ',', 'simple') + '#c\n' for r in A), 'simple', '#'),
+                        (refcsv.ref_write([[('l1\nl2' if j == 0 else c) for j, c in enumerate(r)] for r in A], ',', 'quoted_rfc'), 'quoted_rfc', None)]
+            for text, pol, cm in variants:
+                for mode in ('bulk', 'stream'):
+                    c = {'op': 'read', 'mode': mode, 'encoding': 'utf-8', 'dlm': ',', 'policy': pol, 'has_header': False, 'comment_prefix': cm}
+                    if mode == 'bulk':
+                        c['hex'] = text.encode().hex()
+                    else:
+                        c['pieces'] = [text.encode().hex()]
+                    batch.append(c)
+                    meta.append((text, pol, cm, mode))
+    # IO errors must be reported as IO handling by the implementation's own classifier
+    bad = [('a,"b\n', 'quoted_rfc'), ('x\n"a"b,c\n', 'quoted_rfc')]
+    for text, pol in bad:
+        for mode in ('bulk', 'stream'):
+            c = {'op': 'read', 'mode': mode, 'encoding': 'utf-8', 'dlm': ',', 'policy': pol, 'has_header': False, 'comment_prefix': None}
+            if mode == 'bulk':
+                c['hex'] = text.encode().hex()
+            else:
+                c['pieces'] = [text.encode().hex()]
+            batch.append(c)
+            meta.append((text, pol, None, mode + ':io'))
+    for hexdata in ('612cff0a', 'ff'):
+        for mode in ('bulk', 'stream'):
+            c = {'op': 'read', 'mode': mode, 'encoding': 'utf-8', 'dlm': ',', 'policy': 'simple', 'has_header': False, 'comment_prefix': None}
+            if mode == 'bulk':
+                c['hex'] = hexdata
+            else:
+                c['pieces'] = [hexdata]
+            batch.append(c)
+            meta.append((hexdata, 'simple', None, mode + ':io'))
+    outs = js.run_batch(batch)
+    for (text, pol, cm, mode), out in zip(meta, outs):
+        res.evaluations += 1
+        res.traces += 1
+        res.states += 1
+        res.transitions += 1
+        if mode.endswith(':io'):
+            e = out.get('error') or {}
+            if e.get('name') != 'RbqlIOHandlingError' or e.get('type') != 'IO handling':
+                res.violation('js:not-an-io-handling-error', {'kind': 'js-io', 'input': text, 'policy': pol, 'mode': mode}, 'RbqlIOHandlingError / IO handling', out)
+            else:
+                res.feat('js_io_errors')
+                res.nontrivial += 1
+            continue
+        r = refcsv.ref_read(text, ',', pol, False, cm, '\ufeff')
+        base = (None, out.get('records'), tuple(out.get('warnings', [])), None) if 'error' not in out else (None, None, (), 'EXC:' + str(out['error']))
+        why = c12.compare_with_ref(base, r, False)
+        if why:
+            res.violation('js:reader-warning-iff', {'kind': 'js-read', 'text': text, 'policy': pol, 'comment': cm, 'mode': mode}, r.key(), out, why)
+        else:
+            res.feat('js_reader_cases')
+            if len(r.fields_info) > 1:
+                res.nontrivial += 1
+    res.sample({'js_parts': ['runtime error record numbers', 'reader warnings (bulk, stream)', 'IO error types']})
+
+
 def run_shard(sh):
     res = core.Result()
+    if sh['part'] == 'js':
+        part_js(sh, res)
+        return res
     {'runtime': part_runtime, 'parsing': part_parsing, 'io': part_io, 'widths': part_widths, 'writer': part_writer, 'reader': part_reader}[sh['part']](sh, res)
     return res
 
@@ -307,7 +386,7 @@ def main(tier, seed):
     t0 = time.time()
     maxn = 7 if tier == 'thorough' else 5
     shards = [{'part': 'runtime', 'lo': i, 'hi': i + 1, 'maxn': maxn} for i in range(len(poison_queries()))]
-    shards += [{'part': 'parsing'}, {'part': 'io'}, {'part': 'widths', 'maxn': maxn + 1}, {'part': 'writer'}, {'part': 'reader'}]
+    shards += [{'part': 'parsing'}, {'part': 'io'}, {'part': 'widths', 'maxn': maxn + 1}, {'part': 'writer'}, {'part': 'reader'}, {'part': 'js', 'maxn': 4}]
     res = core.run_shards('vf.checks.c14', shards)
     return core.finish(PID, tier, seed, res, t0,
         rule='runtime: 17 clause shapes x every non-empty subset of poisoned positions of tables up to the row bound (poisons: non-numeric, None, short row, unmatched strict key, non-constant column); '
@@ -316,7 +395,7 @@ def main(tier, seed):
         assumptions=['record numbers in the field-count warning are asserted for header-less, whole-scan queries only (the quantifier)', 'RefQL computes the first offending record'],
         extra={'row_bound': maxn},
         min_features={'runtime_errors_located': 300, 'first_offender_not_record_1': 100, 'parsing_errors': 50, 'io_errors': 20, 'ragged_tables': 200, 'rectangular_tables': 10,
-                      'outputs_with_none': 50, 'outputs_with_delimiter_in_field': 50, 'reader_warning_cases': 5})
+                      'js_reader_cases': 100, 'js_io_errors': 4, 'outputs_with_none': 50, 'outputs_with_delimiter_in_field': 50, 'reader_warning_cases': 5})
 
 
 def replay(rep):
